@@ -33,6 +33,17 @@ func TestWorker(t *testing.T) {
 	crash := sim.Engine{Run: runCrash, Nontrivial: func(c *sim.Ctx) bool { return c.Counters["crash.states"] >= 4 }}
 	sim.WorkerMain(t, map[string]sim.Engine{
 		"C08": crash,
+		"C10": {Run: runNetwork, Nontrivial: func(c *sim.Ctx) bool {
+			n := int64(0)
+			for k, v := range c.Counters {
+				if len(k) > 13 && k[:13] == "fault.tamper." {
+					n += v
+				}
+			}
+			return n >= 1
+		}},
+		"C23": {Run: runNetwork, Nontrivial: func(c *sim.Ctx) bool { return c.Counters["wire.GIVB"]+c.Counters["wire.GIVT"] >= 2 }},
+		"C22": {Run: runFraming, Nontrivial: func(c *sim.Ctx) bool { return c.Counters["probe.chunks"] >= 3 }},
 		"C24": {Run: runBookkeeping, Nontrivial: func(c *sim.Ctx) bool { return c.Counters["probe.bookkeeping_compared"] >= 5 }},
 		"C25": {Run: runIntroGate, Nontrivial: func(c *sim.Ctx) bool { return c.Step >= 5 }},
 		"C33": {Run: runSync, Nontrivial: func(c *sim.Ctx) bool {
